@@ -186,14 +186,96 @@ def observed_entries(obs):
     return [(n.lower(), cs[i] if ok else "?") for i, n in enumerate(names)]
 
 
+# ------------------------------------------------------------------ sequences in one process
+def gen_sequences(rng, quick):
+    """Sequences of project STATES parsed one after the other in ONE process (mage as a library).
+    A and B are two projects in different directories with the SAME module path and the same
+    import paths, whose imported packages differ; A2 is A after a file with more targets was
+    added to one of its imported packages.   even k: A, B    odd k: A, A2, B, A2"""
+    import copy
+    seqs = []
+    for k in range(4 if quick else 24):
+        mod = "s%04d" % k
+        nsp = rng.choice([2, 3, 4])
+        for _ in range(100):
+            specs = [G.gen_spec(rng, j, rng.choice(PLACEMENTS), rng.choice([0, 1, 2, 8]), rng.choice(["root", "alias", "alias"])) for j in range(nsp)]
+            A = G.assemble(rng, mod + "a", "inside", specs, nsp)
+            A["module"] = mod
+            A["packages"][0]["nested"] = None
+            G.rename_until_clash_free(rng, A)
+            B = copy.deepcopy(A)
+            B["name"] = mod + "b"
+            B["packages"] = [G.gen_package(rng, i) for i in range(nsp)]
+            G.rename_until_clash_free(rng, B)
+            # every imported package of B differs from A's in what it exposes
+            if all(sorted(G.pkg_targets(pa)) != sorted(G.pkg_targets(pb)) for pa, pb in zip(A["packages"], B["packages"])):
+                break
+        steps = [A, B]
+        if k % 2 == 1:
+            for _ in range(100):
+                A2 = copy.deepcopy(A)
+                tagged = sorted({s["pkg"] for f in A2["files"] for d in f["decls"] for s in d["specs"] if isinstance(s["pkg"], int) and G.oracle_tag(s) is not None})
+                pk = A2["packages"][rng.choice(tagged)]
+                used = {f["name"] for f in pk["funcs"]}
+                for nm in rng.sample([n for n in G.FUNC_NAMES if n not in used], rng.choice([1, 2])):
+                    pk["funcs"].append({"name": nm, "sig": rng.choice(G.SIGS), "file": "more"})
+                try:
+                    G.oracle_expected(A2)
+                    break
+                except G.NameClash:
+                    continue
+            steps = [A, A2, B, A2]
+        seqs.append({"sequence": steps})
+    return seqs
+
+
+def run_sequence(ctx, mage, unitbin, seq, outside):
+    """parse the states of seq in order in ONE unitrun process; returns one observation per step
+    (same keys as run_project where they make sense)"""
+    disk, dirs, steps = {}, {}, []
+    for st in seq["sequence"]:
+        files = G.render_project(st, REPO, projlib.PROBE_GO)
+        name = st["name"]
+        if name not in dirs:
+            dirs[name] = mage.project(files, name=name, probe=False, gomod=False)
+            disk[name] = dict(files)
+            write = {}
+        else:
+            write = {os.path.join(dirs[name], rel): text for rel, text in files.items() if disk[name].get(rel) != text}
+            disk[name].update(files)
+        mf = G.start(st, dirs[name], outside)[2]
+        steps.append({"dir": mf, "files": sorted(f["name"] for f in st["files"]), "write": write})
+    rc, out, err = sh([unitbin], input=(json.dumps({"op": "importseq", "raw": {"steps": steps}}) + "\n").encode(), env=mage.env(), timeout=900)
+    try:
+        ans = json.loads(out.splitlines()[0])["steps"]
+        assert len(ans) == len(steps)
+    except Exception:
+        raise BuildError("unitrun importseq failed: rc=%s %s %s" % (rc, out[-500:], err[-1500:]))
+    res = []
+    gl = {}
+    for st, step, a in zip(seq["sequence"], steps, ans):
+        name = st["name"]
+        if name not in gl:
+            gl[name] = golist(mage, step["dir"], sorted({G.import_path(st, pk) for pk in st["packages"]}))
+        obs = {"mf": step["dir"], "args": ["parse.PrimaryPackage"], "golist_mf": gl[name], "golist_start": gl[name],
+               "magefiles": [os.path.join(step["dir"], f) for f in step["files"]], "written_before_step": sorted(os.path.relpath(p, dirs[name]) for p in step["write"])}
+        if a.get("error"):
+            obs.update({"list_rc": 1, "error": "parse-error", "stderr": re.sub(r"/\S*/(verif-C19-[^/\s]*/)", "", a["error"])[-1200:]})
+        else:
+            fs = a.get("funcs") or []
+            obs.update({"list_rc": 0, "run_rc": 0, "names": [f["t"] for f in fs], "calls": [G.defid(f["p"], f["r"], f["n"]) for f in fs]})
+        res.append(obs)
+    return res
+
+
 # ------------------------------------------------------------------ oracle
-def oracle(proj, obs):
+def oracle(proj, obs, exposure_only=False):
     """clauses of the property sentence that the observed behaviour breaks: [(clause, detail)]"""
     exp = G.oracle_expected(proj)
     bad = []
     ntag = sum(1 for f in proj["files"] for d in f["decls"] for s in d["specs"] if isinstance(s["pkg"], int) and G.oracle_tag(s) is not None)
     if obs["list_rc"] != 0:
-        return [("exposure", "mage -l failed (%s) where %d tagged imports must contribute %d targets: %s" % (
+        return [("exposure", "mage failed (%s) where %d tagged imports must contribute %d targets: %s" % (
             obs.get("error"), ntag, len(exp) - len(G.pkg_targets(proj["local"])), obs.get("stderr", "")[-300:]))]
     got = dict(observed_entries(obs))
     missing = sorted(k for k in exp if k not in got)
@@ -201,6 +283,8 @@ def oracle(proj, obs):
     wrong = sorted(k for k in exp if k in got and got[k] != exp[k])
     if missing or extra or wrong:
         bad.append(("exposure", "missing %s; not to be exposed %s; wrong body %s" % (missing[:6], extra[:6], [(k, got[k], exp[k]) for k in wrong[:4]])))
+    if exposure_only:
+        return bad
     # alias and default declarations inside imported packages are ignored
     ldef = proj["local"].get("default")
     if ldef:
@@ -244,6 +328,7 @@ def coq_case(proj, obs, ast):
 def run(ctx):
     ctx.prove(["Props/C19.vo", "Run/eval_C19.vo"])
     ctx.trusted_base += [
+        "harness/unitrun op importseq (parse.PrimaryPackage called repeatedly in one process)",
         "harness/importast (go/parser's view of the import declarations: Doc/Comment groups, Lparen, path literal) - standard library only",
         "lib/c19gen.py (project generator, renderer to Go source, Coq printer, oracle), lib/projlib.py (runner, listing/CALL parsers)",
         "the go tool: `go list` answers per directory are measured per case and fed to the model; the targets of an imported package are the generator's (C06 is about what a target is)",
@@ -254,12 +339,25 @@ def run(ctx):
     outside = os.path.join(ctx.tmp, "outside")
     os.makedirs(outside, exist_ok=True)
     rng = ctx.rng
+    unitbin = go_build_harness(ctx, "unitrun")
     if ctx.replay and ctx.replay.get("case"):
-        projects = [ctx.replay["case"]]
+        c = ctx.replay["case"]
+        projects, sequences = ([], [c]) if "sequence" in c else ([c], [])
     else:
         projects = gen_projects(rng, ctx.quick)
-    ctx.log("projects:", len(projects))
-    observations = pmap(lambda p: run_project(ctx, mage, p, outside), projects)
+        sequences = gen_sequences(rng, ctx.quick)
+    ctx.log("projects:", len(projects), "sequences:", len(sequences))
+    results = pmap(lambda j: run_sequence(ctx, mage, unitbin, j, outside) if "sequence" in j else run_project(ctx, mage, j, outside),
+                   projects + sequences)
+    observations = results[:len(projects)]
+    # the steps of the sequences are cases like the projects: (state, observation); origin[i] = (sequence, step) for reporting
+    nproj = len(projects)
+    origin = {}
+    for seq, obss in zip(sequences, results[nproj:]):
+        for si, (st, o) in enumerate(zip(seq["sequence"], obss)):
+            origin[len(projects)] = (seq, si)
+            projects = projects + [st]
+            observations.append(o)
     inp = "\n".join(json.dumps({"files": o["magefiles"]}) for o in observations) + "\n"
     rc, out, err = sh([astbin], input=inp.encode(), timeout=600)
     asts = [json.loads(l) for l in out.splitlines() if l.strip()]
@@ -294,7 +392,14 @@ def run(ctx):
                         by[k][v] = by[k].get(v, 0) + 1
         if obs["list_rc"] != 0:
             nerr += 1
-        if not proj.get("odd"):
+        ci = len(items)
+        if ci in origin:
+            seq, si = origin[ci]
+            for clause, detail in oracle(proj, obs, exposure_only=True):
+                ctx.violation({"kind": "oracle", "clause": clause + "-in-sequence", "step": si, "detail": detail,
+                               "sequence": "states %s parsed in one process" % [s["name"] + ("+" + ",".join(sorted({f["file"] for pk in s["packages"] for f in pk["funcs"] if f.get("file")})) if any(f.get("file") for pk in s["packages"] for f in pk["funcs"]) else "") for s in seq["sequence"]]},
+                              case=seq, extra={"observed_at_step": {k: obs.get(k) for k in ("names", "calls", "error", "stderr", "written_before_step")}})
+        elif not proj.get("odd"):
             for clause, detail in oracle(proj, obs):
                 ctx.violation({"kind": "oracle", "clause": clause, "detail": detail, "start": proj["layout"]}, case=proj,
                               extra={"observed": {k: obs.get(k) for k in ("names", "calls", "error", "stderr", "noarg_calls", "alias_probes", "args")}})
@@ -305,15 +410,18 @@ def run(ctx):
         for idx, bodytxt in mism[:3]:
             proj, obs = projects[idx], observations[idx]
             ctx.violation({"kind": "model-vs-implementation", "correspondence": "Run/eval_C19.mismatches", "model_says": bodytxt[:600],
-                           "implementation": {k: obs.get(k) for k in ("names", "calls", "error", "stderr")}, "odd_shapes_only": bool(proj.get("odd"))},
-                          case=proj, found_input=False)
+                           "implementation": {k: obs.get(k) for k in ("names", "calls", "error", "stderr")}, "odd_shapes_only": bool(proj.get("odd")),
+                           "step_of_sequence": origin[idx][1] if idx in origin else None},
+                          case=origin[idx][0] if idx in origin else proj, found_input=False)
     cov["evaluations"] = dist["specs"]
     cov["distinct_nontrivial"] = len(combos)
     cov["rule"] = ("evaluations = import specs of generated packages inside %d generated projects (one Coq case per project: the whole listing and the body run under "
                    "every listed name); distinct = (placement, length of the leading comment group, spelling, kind, position of the tag line, detached, raw path literal) combinations; "
                    "every placement x every length 0..12 of preceding lines (group lengths 1..13, nine included) and every placement x every spelling x root/alias "
                    "occur in every run" % len(projects))
-    cov["projects"] = len(projects)
+    cov["projects"] = nproj
+    cov["sequences_in_one_process"] = {"sequences": len(sequences), "steps": len(origin),
+                                       "shapes": "A,B (same module path and import paths, different packages) and A, A+file added to an imported package, B, A+file"}
     cov["tags_by_oracle"] = dist
     cov["distribution"] = by
     cov["projects_where_mage_failed"] = nerr
@@ -325,11 +433,11 @@ def run(ctx):
                     if isinstance(s["pkg"], int) and G.oracle_tag(s):
                         m.setdefault(s["pkg"], set()).add(G.oracle_tag(s))
         return m
-    cov["projects_with_one_package_under_two_aliases"] = sum(1 for p in projects if not p.get("odd") and any(len(v) > 1 for v in aliases_of(p).values()))
+    cov["projects_with_one_package_under_two_aliases"] = sum(1 for p in projects[:nproj] if not p.get("odd") and any(len(v) > 1 for v in aliases_of(p).values()))
     cov["projects_whose_start_directory_cannot_resolve_the_imports"] = sum(
-        1 for o in observations if o["golist_mf"] and any(o["golist_mf"].values()) and not all(o["golist_start"].get(p) for p in o["golist_mf"] if o["golist_mf"][p]))
+        1 for o in observations[:nproj] if o["golist_mf"] and any(o["golist_mf"].values()) and not all(o["golist_start"].get(p) for p in o["golist_mf"] if o["golist_mf"][p]))
     cov["model_mismatches"] = len(mism)
     cov["traces_validated_against_impl"] = len(projects) - len(mism)
-    for proj, obs in list(zip(projects, observations))[:2]:
+    for proj, obs in list(zip(projects, observations))[:2 if nproj else 0]:
         ctx.sample({"layout": proj["layout"], "args": obs["args"], "names": obs.get("names"), "calls": obs.get("calls"),
                     "specs": [[s["lead"], s["trail"]] for f in proj["files"] for d in f["decls"] for s in d["specs"]][:6]})
